@@ -68,6 +68,7 @@ func (e *Engine) checkOnlyFlows(f *ssa.Function, fl FlowSpec) (bool, string) {
 // verifyLemma checks a standalone lemma: for all parameter values and all heaps, requires ==> ensures.
 func (e *Engine) verifyLemma(lm *Lemma) []*Obligation {
 	coll := &collector{}
+	e.counter = 0
 	key := lm.Pkg + ".lemma " + lm.Name
 	s := &State{eng: e, regs: map[ssa.Value]Val{}, cells: map[*ssa.Alloc]Val{}, iters: map[*ssa.Range]iterState{},
 		heaps: map[string]string{}, ghost: map[string]Val{}, coll: coll, entryVars: map[string]Val{}}
@@ -112,6 +113,7 @@ func (e *Engine) verifyLemma(lm *Lemma) []*Obligation {
 // verifyFunction generates all obligations of f against its contract.
 func (e *Engine) verifyFunction(f *ssa.Function, spec *FuncSpec) *collector {
 	coll := &collector{}
+	e.counter = 0 // names are unique per function: the queries of a function do not depend on what was generated before it
 	if spec != nil && spec.Trusted {
 		coll.notes = append(coll.notes, "trusted contract (body not verified): "+e.fnKey(f))
 		return coll
